@@ -4,7 +4,10 @@
 package ref
 
 import (
+	"bytes"
+	"math"
 	"sort"
+	"strings"
 	"time"
 
 	"github.com/ostafen/clover/v2/zzverif/nd"
@@ -36,7 +39,14 @@ type Opts struct {
 	IntSafe   bool // integers restricted to [-2^53, 2^53] (and uint <= 2^53)
 	TimeKey   bool // times restricted to >= 1970 (UnixNano >= 0)
 	SmallInts bool // integers from a concrete boundary set (keeps int->float conversions out of the solver)
+	// FloatNormal restricts doubles to 0, -0 or magnitude >= 2^-1000 (incl. +-Inf): all such values have index
+	// keys of one of two lengths, which keeps the key-length case split of orderedcode.appendInt64 at 3 cases
+	// per value; the shorter encodings of tinier doubles are covered by the C10 key harnesses over all doubles.
+	FloatNormal bool
+	ConcFloats  bool // doubles from the concrete boundary set concFloats (keys become concrete)
 }
+
+var concFloats = []float64{-1.5, 0, 2.5}
 
 var kindList = []int{KNil, KInt, KUint, KFloat, KString, KBool, KTime, KArray, KObject}
 
@@ -91,7 +101,15 @@ func Value(name string, o Opts) interface{} {
 		}
 		return v
 	case KFloat:
-		return nd.Float64(name + ".f")
+		if o.ConcFloats {
+			return concFloats[nd.Choice(name+".cf", len(concFloats))]
+		}
+		f := nd.Float64(name + ".f")
+		if o.FloatNormal {
+			mag := math.Float64bits(f) &^ (1 << 63)
+			nd.Assume(mag == 0 || mag >= 0x0170000000000000)
+		}
+		return f
 	case KString:
 		return String(name+".s", o.MaxStr)
 	case KBool:
@@ -219,21 +237,7 @@ func cmpNum(a, b interface{}) int {
 	panic("ref: not numbers")
 }
 
-func cmpStr(a, b string) int {
-	n := len(a)
-	if len(b) < n {
-		n = len(b)
-	}
-	for i := 0; i < n; i++ {
-		if a[i] < b[i] {
-			return -1
-		}
-		if a[i] > b[i] {
-			return 1
-		}
-	}
-	return cmpI(int64(len(a)), int64(len(b)))
-}
+func cmpStr(a, b string) int { return strings.Compare(a, b) }
 
 func sortedKeys(m map[string]interface{}) []string {
 	ks := make([]string, 0, len(m))
@@ -303,30 +307,6 @@ func Sgn(x int) int {
 }
 
 // CmpBytes is bytewise lexicographic comparison.
-func CmpBytes(a, b []byte) int {
-	n := len(a)
-	if len(b) < n {
-		n = len(b)
-	}
-	for i := 0; i < n; i++ {
-		if a[i] < b[i] {
-			return -1
-		}
-		if a[i] > b[i] {
-			return 1
-		}
-	}
-	return cmpI(int64(len(a)), int64(len(b)))
-}
+func CmpBytes(a, b []byte) int { return bytes.Compare(a, b) }
 
-func IsPrefix(p, s []byte) bool {
-	if len(p) > len(s) {
-		return false
-	}
-	for i := range p {
-		if p[i] != s[i] {
-			return false
-		}
-	}
-	return true
-}
+func IsPrefix(p, s []byte) bool { return bytes.HasPrefix(s, p) }
